@@ -527,7 +527,12 @@ def _write_evidence(mod, prop, tier, seed, merged, wall, violations, extra):
         if not os.path.exists(schema_path):
             schema_path = os.path.join(VERIF_DIR, 'vlib', 'EVIDENCE.schema.json')
         schema = json.load(open(schema_path))
-        jsonschema.validate(ev, schema)
+        try:
+            jsonschema.validate(ev, schema)
+        except jsonschema.ValidationError as exc:
+            if not violations:
+                raise HarnessError('evidence does not validate: %s' % exc.message)
+            print('note: evidence of this failing run does not validate (%s)' % exc.message)
     except ImportError:
         pass
     with open(path, 'w') as f:
